@@ -22,6 +22,7 @@ change the public API.
 import gettext
 import logging
 import os
+import pickle
 from dataclasses import dataclass, field
 from enum import Enum
 from importlib.metadata import PackageNotFoundError, version
@@ -44,6 +45,17 @@ __REUSE_version__ = "3.3"
 _LOGGER = logging.getLogger(__name__)
 
 _LICENSING = Licensing()
+
+
+def _parse_expression(expression: str) -> Any:
+    """Parse an SPDX expression. One that is nested hundreds of levels deep
+    exhausts the stack as soon as it is hashed, rendered or sent to another
+    process. That is found out here (:class:`RecursionError`), where the callers
+    deal with expressions that cannot be parsed.
+    """
+    parsed = _LICENSING.parse(expression)
+    pickle.dumps((parsed, str(parsed), hash(parsed)))
+    return parsed
 
 
 class SourceType(Enum):
